@@ -15,7 +15,7 @@ Step(name, w) ==
                             chk |-> {x \in Writers : wpc'[x] = "check"}])
   /\ steps' = steps + 1
 
-MCNext ==
+MCNextInner ==
   \/ \E w \in Writers : Begin(w) /\ Step("Begin", w)
   \/ \E w \in Writers : Check(w) /\ Step("Check", w)
   \/ \E w \in Writers : Await(w) /\ Step("Await", w)
@@ -34,6 +34,8 @@ MCNext ==
   \/ (CloseStop /\ Step("CloseStop", "-"))
   \/ (CloseWaitRun /\ Step("CloseWaitRun", "-"))
   \/ (CloseJoin /\ Step("CloseJoin", "-"))
+
+MCNext == MCNextInner /\ UNCHANGED <<bgerr, stallshut, nfail>>
 
 MCSpec == MCInit /\ [][MCNext]_<<vars, hist, steps>>
 
